@@ -150,10 +150,31 @@ def obj_matches(params, M, request_prefix):
     return s_and(*conds) if conds else True, vals
 
 
-def reference(spec, M):
+def on_path(prefix, R):
+    """concrete: is `prefix` a prefix of the concrete byte string R"""
+    return len(prefix) <= len(R) and bytes(R[:len(prefix)]) == bytes(prefix)
+
+
+def candidates_for_request(spec, R):
+    """services found through request R: some constant prefix of the service (request, its
+    responses, the global negative responses with its request echo) is a non-empty prefix of R"""
+    out = []
+    for sv in spec["services"]:
+        rqp = prefix_of(sv["request"]["params"]) if sv.get("request") else b""
+        pres = [rqp]
+        for r in sv.get("pos", []) + sv.get("neg", []) + spec.get("gnr", []):
+            pres.append(prefix_of(r["params"], rqp))
+        if any(len(p) > 0 and on_path(p, R) for p in pres):
+            out.append(sv["name"])
+    return out
+
+
+def reference(spec, M, only=None):
     """set of (service, coding object) names that must be reported, with values"""
     out = {}
     for sv in spec["services"]:
+        if only is not None and sv["name"] not in only:
+            continue
         rqp = prefix_of(sv["request"]["params"]) if sv.get("request") else b""
         objs = []
         if sv.get("request"):
@@ -250,9 +271,13 @@ def run_own(sx, cfg, env):
     # service-group view: filed under the first byte of its request
     groups = layer.service_groups
     first = pdu[0]
-    grp = groups[first] if isinstance(first, int) else None
-    if grp is not None:
-        sx.require(any(s.short_name == sv["name"] for s in grp), "service-filed-under-first-request-byte")
+    if isinstance(first, int) and not isinstance(first, core.SymInt):
+        try:
+            grp = groups[first]
+        except KeyError:
+            grp = []
+        sx.require(any(s.short_name == sv["name"] for s in grp or []),
+                   "service-filed-under-first-request-byte")
 
 
 def run_response(sx, cfg, env):
@@ -284,6 +309,49 @@ def run_response(sx, cfg, env):
             sx.require(m.param_dict.get(k) == v, "response-values")
 
 
+def run_response_any(sx, cfg, env):
+    """decode_response(response, request) for EVERY response message: candidates are the services
+    found through the (encoded) request of service k"""
+    from odxtools.exceptions import DecodeError
+    import warnings
+    layer, spec = env["layer"], env["spec"]
+    sv = spec["services"][cfg["service"]]
+    svc = layer.services[sv["name"]]
+    rvals = {p["name"]: sx.int("rq_" + p["name"], 0, (1 << p["dop"]["bl"]) - 1)
+             for p in sv["request"]["params"] if p["kind"] == "value"}
+    req = core.frozen(svc.encode_request(**rvals))
+    const_part = prefix_of(sv["request"]["params"])
+    M = sx.bytes("resp", cfg["mlen"])
+    if cfg.get("first") is not None:
+        sx.assume(M[0] == cfg["first"])
+        if cfg.get("second_hi") is not None:
+            sx.assume(M[1] >> 4 == cfg["second_hi"])
+    elif cfg.get("not_first"):
+        sx.assume(s_and(*[M[0] != b for b in cfg["not_first"]]))
+    # the prefix-tree walk only depends on the constant prefix of the request unless a value byte
+    # happens to continue another service's prefix; restrict to requests whose value bytes do not
+    cands = candidates_for_request(spec, bytes(const_part))
+    longer = [s2 for s2 in spec["services"] if s2.get("request") and
+              len(prefix_of(s2["request"]["params"])) > len(const_part) and
+              on_path(const_part, prefix_of(s2["request"]["params"]))]
+    if longer:
+        sx.cover("skipped-ambiguous-request")
+        return
+    want = reference(spec, M, only=cands)
+    if len({k[0] for k in want}) != len(want):
+        return
+    try:
+        with warnings.catch_warnings():
+            warnings.simplefilter("ignore")
+            got = layer.decode_response(M, req)
+    except DecodeError:
+        sx.cover("decode-error")
+        sx.require(len(want) == 0, "decode-error-only-if-nothing-matches")
+        return
+    sx.cover("decoded")
+    _compare(sx, got, want)
+
+
 LIM = {"quick": explore.Limits(max_paths=20000, wall_s=300), "thorough": explore.Limits(max_paths=200000, wall_s=1500)}
 HARNESSES = {
     "decode": {"build": build_layer, "run": run_decode, "width": 80, "limits": LIM,
@@ -292,6 +360,8 @@ HARNESSES = {
             "must_cover": ["require:own-request-values"]},
     "response": {"build": build_layer, "run": run_response, "width": 80, "limits": LIM,
                  "must_cover": ["require:response-values"]},
+    "response-any": {"build": build_layer, "run": run_response_any, "width": 80, "limits": LIM,
+                     "must_cover": ["decoded", "decode-error"]},
 }
 STUBS = ["int/bytes/bytearray shims", "bitstruct -> models.bitstruct_model"]
 
@@ -313,6 +383,19 @@ def configs(tier, seed):
             if sv.get("request") and sv.get("pos"):
                 out.append({"id": f"response/{name}/{sv['name']}", "harness": "response",
                             "layer": name, "service": i, "build": {"layer": name}})
+            if sv.get("request") and name in (("negative-responses", "global-negative")
+                                               if tier == "quick" else
+                                               ("negative-responses", "global-negative", "disjoint",
+                                                "two-global-negatives")):
+                for n in ((3,) if tier == "quick" else (2, 3, 4)):
+                    base = {"harness": "response-any", "layer": name, "service": i, "mlen": n,
+                            "build": {"layer": name}}
+                    stem = f"response-any/{name}/{sv['name']}/len{n}"
+                    if tier == "quick" and sv["name"] != "A":
+                        continue
+                    for hi in (range(16) if tier != "quick" else (1, 2)):
+                        out.append(dict(base, id=f"{stem}/b7f/{hi:x}x", first=0x7F, second_hi=hi))
+                    out.append(dict(base, id=f"{stem}/other", not_first=[0x7F]))
     return out
 
 
